@@ -170,9 +170,11 @@ GPMode(r) == LET f == Fields(r.line) g == f[Len(f)] IN
 
 --------------------------------------------------------------------------------
 (* Parse: what each protocol's handle() does before its try block                          *)
+RECURSIVE DropChars(_, _)
+DropChars(s, cs) == IF Len(s) = 0 THEN "" ELSE (IF T!Ch(s, 1) \in cs THEN "" ELSE T!Ch(s, 1)) \o DropChars(T!Tail1(s), cs)
 MinPos(a, b) == IF a = 0 THEN b ELSE IF b = 0 THEN a ELSE IF a < b THEN a ELSE b
 GemParts(line) ==                              \* urllib.parse.urlparse(request.strip())
-    LET u    == Strip(line)
+    LET u    == DropChars(Strip(line), {"\t", "\r", "\n"})       \* urlsplit removes TAB, CR, LF anywhere
         rest == SubSeq(u, 10, Len(u))          \* after "gemini://"
         e    == MinPos(T!Find(rest, "/"), MinPos(T!Find(rest, "?"), T!Find(rest, "#")))
         net  == IF e = 0 THEN rest ELSE SubSeq(rest, 1, e - 1)
@@ -219,8 +221,10 @@ Node(k, n) == [k |-> k, n |-> n]
 KindIn(f, p) == IF p \in DOMAIN f THEN f[p].k ELSE "missing"
 PathOf(s) == IF Len(s) > 1 /\ T!Last1(s) = "/" THEN SubSeq(s, 1, Len(s) - 1) ELSE s     \* getfspath
 Join(p, name) == IF p = "/" THEN "/" \o name ELSE p \o "/" \o name
-DirKinds == {"dir", "gmapdir", "maildir"}
-RegKinds == {"file", "html", "mbox", "exe", "pyg", "zip", "gz", "cache"}
+DirKinds == {"dir", "gmapdir", "maildir", "pycache"}           \* "pycache": a __pycache__ directory left by PYG loading
+RegKinds == {"file", "html", "mbox", "exe", "pyg", "zip", "gz", "cache"}  \* "cache": a cache file left by a directory / ZIP handler
+\* regular files the file handlers serve: the repaired FileHandler refuses the cache artefacts
+Servable == IF "ArtefactFetchable" \in Defects THEN RegKinds ELSE RegKinds \ {"cache"}
 
 HasNul(s) == T!Contains(s, NUL)
 IsSecure(s) ==                                 \* handlers/base.py isrequestsecure
@@ -263,14 +267,14 @@ Accepts(h, s, f) ==
            [] h = "MaildirFolderHandler"  -> v.args = "" /\ kR = "maildir"
            [] h = "MaildirMessageHandler" -> MsgNum(v.args, "/MAILDIR-MESSAGE/") >= 1
            [] h \in {"UMNDirHandler", "DirHandler"} -> kS \in DirKinds
-           [] h = "HTMLFileTitleHandler"  -> kS \in RegKinds /\ (T!EndsWith(s, ".html") \/ T!EndsWith(s, ".htm"))
+           [] h = "HTMLFileTitleHandler"  -> kS \in Servable /\ (T!EndsWith(s, ".html") \/ T!EndsWith(s, ".htm"))
            [] h = "MBoxMessageHandler"    -> MsgNum(v.args, "/MBOX-MESSAGE/") >= 1
            [] h = "MBoxFolderHandler"     -> v.args = "" /\ kR = "mbox"
            [] h = "PYGHandler"            -> kR = "pyg"
            [] h = "ExecHandler"           -> kR \in {"exe", "pyg"}
            [] h = "ZIPHandler"            -> ZipRootOf(f, s) # ""
            [] h = "CompressedFileHandler" -> kS = "gz"
-           [] h = "FileHandler"           -> kS \in RegKinds
+           [] h = "FileHandler"           -> kS \in Servable
            [] h = "URLTypeRewriter"       -> Len(s) >= 3 /\ T!Ch(s, 1) = "/" /\ T!Ch(s, 3) = "/"
            [] OTHER -> FALSE                     \* TALFileHandler: no .tal file in the tree
 
@@ -349,7 +353,7 @@ Leaves(h, s, hl, f) ==
     LET dirp   == PathOf(s)
         lists  == h \in {"UMNDirHandler", "DirHandler"} /\ KindIn(f, Join(dirp, CacheName)) = "missing"
         \* resolving the entries of a listing runs every child through the chain: PYG files get loaded
-        pygs   == IF ~Bytecode \/ ~HasHandler(hl, "PYGHandler") THEN {}
+        pygs   == IF ~Bytecode \/ ~HasHandler(hl, "PYGHandler") \/ "PycacheListed" \notin Defects THEN {}
                   ELSE IF h = "PYGHandler" THEN {PathOf(VSplit(s).real)}
                   ELSE IF lists THEN {p \in Visible(f, dirp) : f[p].k = "pyg"} ELSE {}
         pycs   == {Join(ParentOf(p), "__pycache__") : p \in pygs}
@@ -357,7 +361,7 @@ Leaves(h, s, hl, f) ==
     IN [p \in DOMAIN f \cup pycs \cup caches |->
             IF p \in DOMAIN f THEN f[p]
             ELSE IF p \in caches THEN Node("cache", Cardinality(Visible(f, dirp)))
-            ELSE Node("dir", 0)]
+            ELSE Node("pycache", 0)]
 
 --------------------------------------------------------------------------------
 (* the writes of a response: Seq([r |-> region, c |-> chunk])                              *)
@@ -521,15 +525,18 @@ Lookup ==                                       \* gethandler(): first statement
                ELSE /\ exc' = NotFoundExc(sel) /\ pc' = "catchP"
                     /\ log' = Append(log, Rec(proto, NotFoundExc(sel)))
             /\ UNCHANGED <<hname, sel>>
-       ELSE LET r == Resolve(sel, rq.hl, fs) IN
+       ELSE LET r == Resolve(sel, rq.hl, fs)
+                kS == KindIn(fs, PathOf(r.s))
+                art == IF kS = "cache" THEN "ArtefactFetchable"
+                       ELSE IF kS = "pycache" \/ (kS \in DirKinds /\ \E p \in Children(fs, PathOf(r.s)) : fs[p].k = "pycache")
+                            THEN "PycacheListed" ELSE "none"
+            IN
             IF r.h = "none"
-            THEN /\ exc' = NotFoundExc(r.s) /\ pc' = "catchP" /\ SetSite("NotFound")
+            THEN /\ exc' = NotFoundExc(r.s) /\ pc' = "catchP" /\ SetSite(IF art # "none" THEN art ELSE "NotFound")
                  /\ log' = Append(log, Rec(proto, NotFoundExc(r.s)))       \* FileNotFound logs itself
                  /\ UNCHANGED <<hname, sel>>
             ELSE /\ hname' = r.h /\ sel' = r.s /\ pc' = "entry"
-                 /\ SetSite(IF KindIn(fs, PathOf(r.s)) = "cache" THEN "ArtefactFetchable"
-                            ELSE IF r.h \in {"UMNDirHandler", "DirHandler"} /\ KindIn(fs, Join(PathOf(r.s), "__pycache__")) # "missing"
-                                 THEN "PycacheListed" ELSE "none")
+                 /\ SetSite(art)
                  /\ UNCHANGED <<exc, log>>
     /\ ops' = ops + 2
     /\ UNCHANGED <<rq, proto, kind, todo, out, wn, mark, fds, esc, fs>>
